@@ -87,27 +87,32 @@ Proof. reflexivity. Qed.
 
 Lemma eff_notin_done order : forall done u, In u (eff order done) -> memp (u_proto u) done = false.
 Proof.
-  induction order as [|v rest IH]; intros done u I; simpl in I; [destruct I|].
+  induction order as [|[v ok] rest IH]; intros done u I; simpl in I; [destruct I|].
   destruct (memp (u_proto v) done) eqn:M.
   - exact (IH done u I).
-  - destruct I as [<-|I]; [exact M|]. specialize (IH _ u I).
+  - destruct ok; [|exact (IH done u I)].
+    destruct I as [<-|I]; [exact M|]. specialize (IH _ u I).
     unfold memp in *. rewrite existsb_app in IH. apply orb_false_iff in IH. tauto.
 Qed.
 
-Lemma eff_subset order : forall done u, In u (eff order done) -> In u order.
+(* only SetupData whose connect() returned True are set up *)
+Lemma eff_subset order : forall done u, In u (eff order done) -> In (u, true) order.
 Proof.
-  induction order as [|v rest IH]; intros done u I; simpl in I; [destruct I|].
+  induction order as [|[v ok] rest IH]; intros done u I; simpl in I; [destruct I|].
   destruct (memp (u_proto v) done).
   - right. exact (IH done u I).
-  - destruct I as [<-|I]; [now left|right; exact (IH _ u I)].
+  - destruct ok.
+    + destruct I as [<-|I]; [now left|right; exact (IH _ u I)].
+    + right. exact (IH done u I).
 Qed.
 
 (* the set-up unit of a protocol is unique: the units kept by eff have pairwise distinct protocols *)
 Lemma eff_unit_of order : forall done u, In u (eff order done) ->
   unit_of (eff order done) (u_proto u) = Some u.
 Proof.
-  induction order as [|v rest IH]; intros done u I; simpl in *; [destruct I|].
+  induction order as [|[v ok] rest IH]; intros done u I; simpl in *; [destruct I|].
   destruct (memp (u_proto v) done) eqn:M; [exact (IH done u I)|].
+  destruct ok; [|exact (IH done u I)].
   unfold unit_of. simpl. destruct I as [<-|I].
   - assert (E : proto_eqb (u_proto v) (u_proto v) = true) by now apply proto_eqb_eq. now rewrite E.
   - destruct (proto_eqb (u_proto v) (u_proto u)) eqn:E.
@@ -204,7 +209,7 @@ Proof.
 Qed.
 
 Lemma features_backed name us order f :
-  In (name, us) profiles -> (forall u, In u order -> In u us) -> In f features ->
+  In (name, us) profiles -> (forall u ok, In (u, ok) order -> In u us) -> In f features ->
   feature_of_units default_rt push_updates order f <> FUnsupported ->
   forall i m, In (i, m) (members_of f) ->
   (exists u, In u (eff order []) /\ impl_u u i m = true) /\
@@ -213,7 +218,7 @@ Lemma features_backed name us order f :
                 In u (eff order []) /\ u_proto u = q /\ impl_u u i m = true.
 Proof.
   intros Ip Sub If R i m Im. set (E := eff order []) in *.
-  assert (SubE : forall v, In v E -> In v us) by (intros v Iv; apply Sub; exact (eff_subset _ _ _ Iv)).
+  assert (SubE : forall v, In v E -> In v us) by (intros v Iv; apply (Sub v true); exact (eff_subset _ _ _ Iv)).
   pose proof (reported_reportable order f R) as Rep. fold E in Rep.
   assert (RepC : reportable_set (canon us E) f = true).
   { unfold reportable_set in *. now rewrite !(existsb_canon us E _ SubE). }
